@@ -282,7 +282,7 @@ pub fn gen_lnk(r: &mut Rng, thorough: bool, cx: &mut Ctx) {
             cx.emit(&l);
         }
         // large packets (4096 frames in the thorough tier)
-        for &n in (if thorough { &[1792usize, 28672, 28666][..] } else { &[1792usize, 1799][..] }) {
+        for &n in (if thorough { &[1792usize, 28672, 28666][..] } else if link == 0 { &[1792usize, 28672][..] } else { &[1792usize, 1799][..] }) {
             let mut l = vec![link, 3, 0, 1, 0, 2]; let p = gen_packet(r, n); show_packet(&p, &mut l); let q = gen_packet(r, 5); show_packet(&q, &mut l); cx.emit(&l);
         }
     }
